@@ -9,6 +9,7 @@ import (
 	"gtsverif/engines/orders"
 	"gtsverif/engines/siblings"
 	"gtsverif/engines/tables"
+	"gtsverif/engines/traps"
 )
 
 func init() {
@@ -55,6 +56,7 @@ func init() {
 		orders.SegmentOrder(p, r)
 		orders.RegionAlgebra(p, r, 2)
 	})
+	register("C07", true, func(p *core.Prog, r *core.Report, tier string) { traps.C07(p, r) })
 	register("C11", true, func(p *core.Prog, r *core.Report, tier string) { effects.C11(p, r) })
 	register("C13", false, func(p *core.Prog, r *core.Report, tier string) { integrity.C13(p, r) })
 	register("C14", false, func(p *core.Prog, r *core.Report, tier string) { cachekey.C14(p, r) })
